@@ -326,7 +326,8 @@ def consts_case(kind, consts, wide=False, whole=False, spec=None):
     lines = [f"lscr consts {hx(lscr)}"]
     if whole:
         lines += [f"lscr lingo {hx(lscr)} {hx(lnam)}", f"lscr js {hx(lscr)} {hx(lnam)}"]
-    sp = dict(consts=[[k, (v.hex() if isinstance(v, bytes) else v)] for k, v in consts], wide=wide)
+    # ("t", content + slot byte) is a string constant whose terminator slot is not NUL: the constant is `content` whatever the slot holds
+    sp = dict(consts=[[("s" if k == "t" else k), ((v[:-1] if k == "t" else v).hex() if isinstance(v, bytes) else v)] for k, v in consts], wide=wide)
     sp.update(spec or {})
     return Case(kind=kind, spec=sp, lines=lines, expect=[None] * len(lines))
 
@@ -380,6 +381,11 @@ def cases(rng, tier):
     npool = dict(quick=400, thorough=6000, search=3000)[tier]
     edge = [0, 1, -1, 6, 127, 128, 255, 256, 32767, 32768, 65535, 65536, 2 ** 31 - 1, -2 ** 31, -2 ** 31 + 1, 10 ** 9, -10 ** 9]
     out.append(consts_case("pool-ints", [("i", v) for v in edge], whole=True))
+    # the byte in the terminator slot of a string constant (Director writes NUL; the length counts it, the constant ends before it)
+    for slot in (0x00, 0x01, 0x20, 0x0D, 0x22, 0x41, 0x5C, 0x7F, 0x80, 0xFF):
+        for wide in (False, True):
+            out.append(consts_case("pool-term-slot", [("t", b"Salir" + bytes([slot])), ("t", bytes([slot])), ("i", 5), ("t", b"a b" + bytes([slot])), ("s", b"x")],
+                                   wide=wide, whole=True, spec=dict(slot=slot)))
     out.append(consts_case("pool-ints", [("i", v) for v in edge], wide=True, whole=True))
     # pools with more than 43 constants: record offsets >= 256 are loaded with the two-byte operand form (opcode 0x84)
     for wide in (False, True):
